@@ -12,6 +12,11 @@ def deep_leaves(ctx, body, expr, depth=3, _stack=None):
     out = set(fl.leaves(expr))
     if depth <= 0:
         return out
+    # closures handed to iterator adaptors etc.: their return value feeds the result
+    for cl in _closures_in(expr):
+        cb = ctx.facts.bodies.get(cl)
+        if cb is not None and cl not in _stack:
+            out |= {x for x in deep_leaves(ctx, cb, ctx.flow(cb).local_expr(0), depth - 1, _stack + (cl,)) if x[0] != "param"}
     for lf in list(out):
         if lf[0] == "call" and lf[1] in ctx.facts.bodies and lf[1] not in _stack:
             cb = ctx.facts.bodies[lf[1]]
@@ -38,4 +43,27 @@ def returned_exprs(ctx, body):
             out.append((bb, fl.rvalue_expr(node["rv"], bb)))
         elif kind == "call":
             out.append((bb, fl.call_expr(node, bb)))
+    return out
+
+
+def _closures_in(e, out=None):
+    if out is None:
+        out = []
+    if not isinstance(e, tuple) or not e:
+        return out
+    if e[0] == "agg":
+        if e[1].startswith("closure:"):
+            out.append(e[1][len("closure:"):])
+        for a in e[2]:
+            _closures_in(a, out)
+    elif e[0] in ("call", "icall"):
+        for a in e[2]:
+            _closures_in(a, out)
+    elif e[0] in ("proj", "ref", "discr"):
+        _closures_in(e[1], out)
+    elif e[0] == "binop":
+        _closures_in(e[2], out)
+        _closures_in(e[3], out)
+    elif e[0] in ("unop", "cast"):
+        _closures_in(e[2], out)
     return out
